@@ -330,7 +330,7 @@ func runC15(c *an.Ctx) {
 		n += 2
 	}
 	c.Count("CODEC", n)
-	c.Floor("CODEC", 18)
+	c.Floor("CODEC", 12)
 
 	littleEndianOnly(c)
 	signingDomains(c)
@@ -578,7 +578,7 @@ func littleEndianOnly(c *an.Ctx) {
 		}
 	}
 	c.Count("CODEC-3", n)
-	c.Floor("CODEC-3", 40)
+	c.Floor("CODEC-3", 20)
 	if bad == 0 {
 		c.Proved("CODEC-3", nil, 0, "little-endian-only", "every encoding/binary byte order referenced in glow, server and client is LittleEndian", fmt.Sprintf("%d references", n))
 	}
@@ -670,7 +670,7 @@ func signingDomains(c *an.Ctx) {
 		}
 	}
 	c.Count("CODEC-5", n)
-	c.Floor("CODEC-5", 14)
+	c.Floor("CODEC-5", 7)
 }
 
 func short2(s string) string {
